@@ -186,6 +186,13 @@ theorem C10_grouping_partial (a0 : Expr) (rest : List (Op × Expr)) (hb : binary
   exact wellGrouped_of_rightGrouped t hrg (by rw [hin]; exact hp)
 #assert_axioms C10_grouping_partial
 
+/-- the tree of `C10_grouping_partial` is *the* right-grouped tree of the chain: a right-grouped
+tree is determined by its in-order reading (its root is the first operator of maximal priority
+number), so the parser's result is characterised completely -/
+theorem C10_grouping_unique (t1 t2 : BTree) (h1 : RightGrouped t1) (h2 : RightGrouped t2)
+    (hin : t1.inorder = t2.inorder) : t1 = t2 := rightGrouped_unique t1 t2 h1 h2 hin
+#assert_axioms C10_grouping_unique
+
 /-- non-vacuity: `12 + 2 * 4` satisfies the side condition and is grouped `12 + (2 * 4)` -/
 example :
     stackToExpr (stackFuel (chainStack (.const (.int 12)) [(.plus, .const (.int 2)), (.multiply, .const (.int 4))]))
